@@ -22,6 +22,12 @@ package quic
 //   FIN was already acknowledged and a later truncated probe moves outclosed back from "received" to "sent".
 //   The eventual-delivery assertions are vfAssertKF with kcond = finMismarked.
 //
+// Harnesses: VerifC19_transfer (windows larger than the data), VerifC19_window (stream window and write buffer bind),
+// VerifC19_connwin (connection window binds; loss may be declared at any time; lost datagrams may never arrive).
+//   seeded C19-B: outUnlockNoQueue `outunsent.min() < outmaxsent` -> `outunsent.max() < outmaxsent` (a stream with lost
+//     bytes AND never-sent bytes waits on queueData for connection credit that only the lost bytes can free)
+//     caught by VerifC19_connwin "eventual delivery"
+//
 // Sensitivity (sh mut.sh, caught by VerifC19_transfer):
 //   stream.go handleData: `b = b[newOff-off:]` -> `b = b[0:]`                 "Read returns the peer's bytes in order"
 //   stream.go ackOrLossData: `if fin {outclosed.ackOrLoss}` -> `if true {..}`  "Close returns nil only after ... FIN acknowledged"
